@@ -220,6 +220,25 @@ class _StageMixin:
         return [self]
 
 
+class _StageStatusMixin:
+    """ophyd-async style: stage()/unstage() return a Status (already finished) instead of a list of devices.
+    ORACLE ONLY: the engine model's stage command answers with a device list, so cases with such devices are not
+    sent to Coq (engine_encode raises Unsupported)."""
+
+    def _done_status(self):
+        st = FakeStatus(self.drv, -1)
+        st.finish(True)
+        return st
+
+    def stage(self):
+        self._call("stage")
+        return self._done_status()
+
+    def unstage(self):
+        self._call("unstage")
+        return self._done_status()
+
+
 class _PauseMixin:
     def pause(self):
         self._call("pause")
@@ -232,10 +251,11 @@ _DEV_CLASSES = {}
 
 
 def make_dev(drv, idx, flags):
-    key = ("stage" in flags, "pause" in flags)
+    key = ("stage" in flags, "pause" in flags, "stagest" in flags)
     if key not in _DEV_CLASSES:
-        bases = tuple(([_StageMixin] if key[0] else []) + ([_PauseMixin] if key[1] else []) + [Dev])
-        _DEV_CLASSES[key] = type("Dev_%d%d" % key, bases, {"__hash__": Dev.__hash__})
+        stage = [_StageStatusMixin] if key[2] else [_StageMixin]
+        bases = tuple((stage if key[0] else []) + ([_PauseMixin] if key[1] else []) + [Dev])
+        _DEV_CLASSES[key] = type("Dev_%d%d%d" % key, bases, {"__hash__": Dev.__hash__})
     return _DEV_CLASSES[key](drv, idx, flags)
 
 
